@@ -86,7 +86,8 @@ def check(facts, rep, tier, cfg):
                     rep.ok("C01.R1", key, where, "client: requested stream <-> accepted local connection")
                 else:
                     rep.bad("C01.R1", key, where, "client bridge wiring: stream operand calls %s, local operand calls %s" % (sorted(st_calls)[:6], sorted(lo_calls)[:6]))
-    floor = (4 if has_client else 0) + (1 if has_server else 0)
+    n_client = 2 + ("tproxy" in crate.features) + ("http-proxy" in crate.features)
+    floor = (n_client if has_client else 0) + (1 if has_server else 0)
     rep.floor("C01.R1", "bridge sites", n, floor)
     # stream request arguments
     if has_client:
@@ -114,7 +115,7 @@ def check(facts, rep, tier, cfg):
                                 rep.ok("C01.R1", "request-args/%s" % pat, where, "host <- %s, port <- %s" % (sorted(h), sorted(p)))
                             else:
                                 rep.bad("C01.R1", "request-args/%s" % pat, where, "stream requested for host<-%s port<-%s, expected %s/%s" % (sorted(h), sorted(p), sorted(wh), sorted(wp)))
-        rep.floor("C01.R1", "stream request sites", m, 4)
+        rep.floor("C01.R1", "stream request sites", m, n_client)
         # socks: handle_connect(rhost, rport) <- read_request results in their roles
         for b in crate.bodies:
             tr = None
